@@ -427,17 +427,34 @@ package rewriter
 //@   ensures p == cursorParent(c)
 //@ pred Unlabelled(c *astutil.Cursor) := !isa(cursorParent(c), LabeledStmt)
 //@ -- what the lowering of the range statement rs leaves behind: the iterator definition `init` and the loop `loop`
+//@ -- D36: NewStringIter takes a string: an operand of a defined string type is converted, one of type string is passed as it is
+//@ pred IsConvCall(e ast.Expr, name string, x ast.Expr) := isa(e, CallExpr) && !isnil(e) && isa(as(e, CallExpr).Fun, Ident) && !isnil(as(e, CallExpr).Fun)
+//@        && same(as(as(e, CallExpr).Fun, Ident).Name, name) && len(as(e, CallExpr).Args) == 1 && as(e, CallExpr).Args[0] == x
+//@ pred StringIterInit(s ast.Node, x ast.Expr) := IterInitC(s, cstNewStringIter)
+//@        && (isa(typeOfExpr(x), types.Basic) ==> as(as(s, AssignStmt).Rhs[0], CallExpr).Args[0] == x)
+//@        && (!isa(typeOfExpr(x), types.Basic) ==> IsConvCall(as(as(s, AssignStmt).Rhs[0], CallExpr).Args[0], "string", x))
+//@ -- D37: an array operand that cannot be sliced in place is copied into a fresh variable by a definition in front of the iterator's
+//@ pred ArrCopy(s ast.Node, x ast.Expr, v ast.Expr) := isa(s, AssignStmt) && !isnil(s) && as(s, AssignStmt).Tok == token.DEFINE
+//@        && len(as(s, AssignStmt).Lhs) == 1 && len(as(s, AssignStmt).Rhs) == 1 && as(s, AssignStmt).Lhs[0] == v && as(s, AssignStmt).Rhs[0] == x
+//@        && isa(v, Ident) && !(v == x)
 //@ pred Lowering(init ast.Node, loop ast.Node, rs *ast.RangeStmt) := IterLoop(loop, init)
-//@        && (IsStringT(typeOfExpr(rs.X)) ==> IterInit(init, cstNewStringIter, rs.X))
+//@        && (IsStringT(typeOfExpr(rs.X)) ==> StringIterInit(init, rs.X))
 //@        && (IsIntegerT(typeOfExpr(rs.X)) ==> IterInit(init, cstNewIntegerIter, rs.X))
 //@        && (IsKindT(typeOfExpr(rs.X), 2) ==> IterInit(init, cstNewSliceIter, rs.X))
 //@        && (IsKindT(typeOfExpr(rs.X), 3) ==> IterInit(init, cstNewMapIter, rs.X))
 //@        && (IsKindT(typeOfExpr(rs.X), 4) ==> IterInit(init, cstNewChanIter, rs.X))
 //@        && (IsKindT(typeOfExpr(rs.X), 1) ==> IterInitC(init, cstNewSliceIter) && FullSlice(as(as(init, AssignStmt).Rhs[0], CallExpr).Args[0]))
+//@ pred NeedsArrCopy(x ast.Expr) := IsKindT(typeOfExpr(x), 1) && !Addressable(x)
 //@ pred WfRange(rs *ast.RangeStmt) := rs != nil && rs.Body != nil && WfExpr(rs.Key) && WfExpr(rs.Value)
+
+//@ func (r *yieldRewriter) addressable(x) (ok)
+//@   trusted      -- go/types: the mode recorded for the expression (types.TypeAndValue.Addressable); decides the abstract Addressable
+//@   ensures ok == Addressable(x)
 
 //@ closure yieldRewriter.rewriteRanges#0 as @Apply.2 (c) (ok)
 //@   reveal wf-ast
+//@   cover[copies-unaddressable-array] isa(cursorNode(c), RangeStmt) && NeedsArrCopy(as(cursorNode(c), RangeStmt).X) && !(W == old(W))
+//@   cover[converts-defined-string] isa(cursorNode(c), RangeStmt) && IsStringT(typeOfExpr(as(cursorNode(c), RangeStmt).X)) && !isa(typeOfExpr(as(cursorNode(c), RangeStmt).X), types.Basic) && !(W == old(W))
 //@   cover[lowers-string] isa(cursorNode(c), RangeStmt) && IsStringT(typeOfExpr(as(cursorNode(c), RangeStmt).X)) && !(W == old(W))
 //@   cover[lowers-integer] isa(cursorNode(c), RangeStmt) && IsIntegerT(typeOfExpr(as(cursorNode(c), RangeStmt).X)) && !(W == old(W))
 //@   cover[lowers-array] isa(cursorNode(c), RangeStmt) && IsKindT(typeOfExpr(as(cursorNode(c), RangeStmt).X), 1) && !(W == old(W))
@@ -459,16 +476,22 @@ package rewriter
 //@   ensures[labelled-later] isa(cursorNode(c), RangeStmt) && !Unlabelled(c) ==> W == old(W)
 //@   ensures[labelled-lowered] isa(cursorNode(c), LabeledStmt) && isa(old(as(cursorNode(c), LabeledStmt).Stmt), RangeStmt)
 //@        && RangeLowerable(typeOfExpr(as(old(as(cursorNode(c), LabeledStmt).Stmt), RangeStmt).X))
-//@        ==> insBase(W) == old(W) && Lowering(lastInserted(W), as(cursorNode(c), LabeledStmt).Stmt, as(old(as(cursorNode(c), LabeledStmt).Stmt), RangeStmt))
+//@        ==> Lowering(lastInserted(W), as(cursorNode(c), LabeledStmt).Stmt, as(old(as(cursorNode(c), LabeledStmt).Stmt), RangeStmt))
+//@             && (let rs := as(old(as(cursorNode(c), LabeledStmt).Stmt), RangeStmt) in
+//@                  (NeedsArrCopy(rs.X) ==> insBase(insBase(W)) == old(W)
+//@                       && ArrCopy(lastInserted(insBase(W)), rs.X, as(as(as(lastInserted(W), AssignStmt).Rhs[0], CallExpr).Args[0], SliceExpr).X))
+//@                  && (!NeedsArrCopy(rs.X) ==> insBase(W) == old(W)))
 //@   ensures[label-untouched] isa(cursorNode(c), LabeledStmt) && !(isa(old(as(cursorNode(c), LabeledStmt).Stmt), RangeStmt)
 //@        && RangeLowerable(typeOfExpr(as(old(as(cursorNode(c), LabeledStmt).Stmt), RangeStmt).X)))
 //@        ==> W == old(W) && as(cursorNode(c), LabeledStmt).Stmt == old(as(cursorNode(c), LabeledStmt).Stmt)
 //@   ensures[other-operands-untouched] isa(cursorNode(c), RangeStmt) && !RangeLowerable(typeOfExpr(as(cursorNode(c), RangeStmt).X)) ==> W == old(W)
 //@   -- every lowering: `it := seq.New<Kind>Iter(arg)` inserted before, the statement replaced by `for it.MoveNext() { … }`
 //@   ensures[lowered] isa(cursorNode(c), RangeStmt) && Unlabelled(c) && RangeLowerable(typeOfExpr(as(cursorNode(c), RangeStmt).X))
-//@        ==> insBase(replBase(W)) == old(W) && IterLoop(lastReplaced(W), lastInserted(replBase(W)))
+//@        ==> IterLoop(lastReplaced(W), lastInserted(replBase(W)))
+//@             && (!NeedsArrCopy(as(cursorNode(c), RangeStmt).X) ==> insBase(replBase(W)) == old(W))
+//@             && (NeedsArrCopy(as(cursorNode(c), RangeStmt).X) ==> insBase(insBase(replBase(W))) == old(W))
 //@   ensures[string] isa(cursorNode(c), RangeStmt) && Unlabelled(c) && IsStringT(typeOfExpr(as(cursorNode(c), RangeStmt).X))
-//@        ==> IterInit(lastInserted(replBase(W)), cstNewStringIter, as(cursorNode(c), RangeStmt).X)
+//@        ==> StringIterInit(lastInserted(replBase(W)), as(cursorNode(c), RangeStmt).X)
 //@   ensures[integer] isa(cursorNode(c), RangeStmt) && Unlabelled(c) && IsIntegerT(typeOfExpr(as(cursorNode(c), RangeStmt).X))
 //@        ==> IterInit(lastInserted(replBase(W)), cstNewIntegerIter, as(cursorNode(c), RangeStmt).X)
 //@   ensures[slice] isa(cursorNode(c), RangeStmt) && Unlabelled(c) && IsKindT(typeOfExpr(as(cursorNode(c), RangeStmt).X), 2)
@@ -481,7 +504,12 @@ package rewriter
 //@   ensures[array] isa(cursorNode(c), RangeStmt) && Unlabelled(c) && IsKindT(typeOfExpr(as(cursorNode(c), RangeStmt).X), 1)
 //@        ==> IterInitC(lastInserted(replBase(W)), cstNewSliceIter) && FullSlice(as(as(lastInserted(replBase(W)), AssignStmt).Rhs[0], CallExpr).Args[0])
 //@   ensures[array-operand] isa(cursorNode(c), RangeStmt) && Unlabelled(c) && IsKindT(typeOfExpr(as(cursorNode(c), RangeStmt).X), 1) && Ignored(as(cursorNode(c), RangeStmt).Value)
+//@        && Addressable(as(cursorNode(c), RangeStmt).X)
 //@        ==> as(as(as(lastInserted(replBase(W)), AssignStmt).Rhs[0], CallExpr).Args[0], SliceExpr).X == as(cursorNode(c), RangeStmt).X
+//@   -- D37: `arr()[:]` does not build; the operand is evaluated once into a fresh variable in front of the iterator definition
+//@   ensures[array-unaddressable] isa(cursorNode(c), RangeStmt) && Unlabelled(c) && NeedsArrCopy(as(cursorNode(c), RangeStmt).X)
+//@        ==> ArrCopy(lastInserted(insBase(replBase(W))), as(cursorNode(c), RangeStmt).X,
+//@                    as(as(as(lastInserted(replBase(W)), AssignStmt).Rhs[0], CallExpr).Args[0], SliceExpr).X)
 //@   -- D10: Go ranges over a *copy* of an array value when the element variable is used (spec, "For statements with range
 //@   -- clause"); slicing the operand itself aliases it, so writes to the array during the loop become visible.
 //@   ensures[array-copy] isa(cursorNode(c), RangeStmt) && Unlabelled(c) && IsKindT(typeOfExpr(as(cursorNode(c), RangeStmt).X), 1) && !Ignored(as(cursorNode(c), RangeStmt).Value)
